@@ -104,9 +104,6 @@ def gen_case(rng: random.Random, tier: str) -> dict:
         src = rng.choice(plain_files)
         dup = dict(src, name=rng.choice(["dup/", "other dir/", "z/y/"]) + os.path.basename(src["name"]))
         members.insert(rng.randrange(len(members) + 1), dup)
-    if fmt == "tar" and not any(m["kind"] == "file" for m in members):
-        # a plain TAR without a single header is 10 KiB of zeros: it carries no signature to be recognised by (not generated)
-        members.append({"name": "only.txt", "kind": "file", "doc": "txt", "token": "TOKonly", "pad": 0})
     spec = {"fmt": fmt, "members": members}
     if fmt == "zip":
         spec["zip_method"] = rng.choice(["stored", "deflated"])
@@ -428,8 +425,8 @@ def shrink(case):
             continue
         c = copy.deepcopy(case)
         del c["spec"]["members"][i]
-        if spec["fmt"] == "tar" and not any(m["kind"] == "file" for m in c["spec"]["members"]):
-            continue  # outside the generated space: a plain TAR without a header carries no signature (see gen_case)
+        if spec["fmt"] == "tar" and not c["spec"]["members"] and ms:
+            continue  # a violation seen on a TAR with members is not the empty-TAR case: do not shrink into it
         if focus and ms[i]["kind"] == "file" and files_idx.index(i) < focus[0][0]:
             c["faults"] = [[focus[0][0] - 1] + focus[0][1:]]
         if c["spec"].get("7z", {}).get("layout") == "groups":
